@@ -109,10 +109,14 @@ def render_spread(blocks, weights):
             if e["el"] not in elcols:
                 elcols.append(e["el"])
     # per-element unit descriptions go into the optional units line (must be the same for all rows)
+    # (an element followed by a phase name / redox couple keeps its unit description inside the cell, because the
+    # units line is appended after the cell text)
     sub = {}
+    incell = set(e["el"] for b in blocks for e in b["els"] if e.get("extra"))
     for b in blocks:
         for el, d in ((b.get("ud") or {}).get("per") or {}).items():
-            sub[el] = d
+            if el not in incell:
+                sub[el] = d
     head = cols + elcols
     lines.append("\t".join(head))
     if sub:
@@ -152,12 +156,13 @@ def render_spread(blocks, weights):
                 row.append("")
                 continue
             e = by[el]
-            d = dict(sub.get(el, {}))
-            txt = conc_text(weights, el, e["c"], default, d)
-            # the number only: unit/as/gfw are in the units line
-            cell = txt.split(" ")[0]
-            if e.get("extra"):
-                cell += " " + e["extra"]
+            if el in incell:
+                cell = conc_text(weights, el, e["c"], default, ((b.get("ud") or {}).get("per") or {}).get(el, {}))
+                if e.get("extra"):
+                    cell += " " + e["extra"]
+            else:
+                # the number only: unit/as/gfw are in the units line
+                cell = conc_text(weights, el, e["c"], default, dict(sub.get(el, {}))).split(" ")[0]
             row.append(cell)
         lines.append("\t".join(row))
     return lines
